@@ -69,7 +69,13 @@ def main():
         sh(f"git -C /repo worktree remove --force {sv}")
         sh(f"git -C /repo worktree add -q {sv} HEAD")
         target, env = sv, f"VERIF_REPO={sv} "
+    # a seed whose patch no longer applies because a later `fix:` commit touched its context lines is kept with the SAME change
+    # re-expressed on the current tree (patch_rebased.diff, written by hand, the original stays beside it)
     rc, out = sh(f"git -C {target} apply --check {patch}")
+    if rc != 0 and (src / "patch_rebased.diff").exists():
+        patch = src / "patch_rebased.diff"
+        res["patch_used"] = "patch_rebased.diff"
+        rc, out = sh(f"git -C {target} apply --check {patch}")
     three = ""
     if rc != 0:
         # /repo has moved on since the seed was written (fix: commits): fall back to a 3-way merge of the patch
@@ -82,6 +88,9 @@ def main():
         results = {}
         try:
             sh(f"git -C {target} apply {three}{patch}")
+            mrc, mout = sh(f"grep -rln '^<<<<<<< ' {target}/src")
+            if mrc == 0:
+                raise RuntimeError(f"3-way apply left conflict markers in {mout.strip()}: the seed needs a patch_rebased.diff")
             for c in [pid] + also:
                 rc, out = sh(f"{env}./check {c} --tier quick", cwd=VERIF, timeout=3000)
                 lines = [l for l in out.splitlines() if l.startswith("VIOLATION") or l.startswith("[C") and "-> exit" in l]
